@@ -1,5 +1,5 @@
 /-
-`isoCond` for simple programs, part 3: the induction over the tree and the program-level statement.
+`isoCond`, part 3: the induction over the tree and the program-level statement.
 -/
 import CalmVerif.Proofs.ObfIso2
 import CalmVerif.Proofs.ObfSimple4
@@ -14,7 +14,7 @@ section
 variable {fin : Final} (recs : List Rec) (hgood : ∀ R ∈ recs, ChainGood R.chain)
 include hgood
 
-abbrev AllBOK (fin : Final) (recs : List Rec) (os : List Occ) : Prop := ∀ o ∈ os, ∀ b ∈ o.binders, BOK recs (tauFin fin) b
+abbrev AllBOK (fin : Final) (recs : List Rec) (os : List Occ) : Prop := ∀ o ∈ os, ∀ b ∈ o.binders, BOK recs (lblChain fin recs) (tauFin fin) b
 
 omit hgood in
 theorem allBOK_append {a b : List Occ} (ha : AllBOK fin recs a) (hb : AllBOK fin recs b) : AllBOK fin recs (a ++ b) := by
@@ -27,7 +27,7 @@ omit hgood in
 theorem battrs_step_list {outer inner : Ctx} {omc imc : MCtx} (hio : InvR (fin := fin) recs outer omc)
     (hii : InvR (fin := fin) recs inner imc) (hof : outer.forInItem = false) (hif : inner.forInItem = false)
     (p : SPath) (kind : String) (hasInit forIn : Bool)
-    (hin : InnerOK kind p inner)
+    (hin : InnerOK kind p inner ∧ (isFunctionKind kind = true → ∃ A, RecVar recs p (A :: omc.chain)))
     (a : String) (xs : List Val) (rest : List (String × Val))
     (h : factsAttrs fin recs omc imc p kind hasInit forIn ((a, .list xs) :: rest) = true)
     (ihList : ∀ (ctx : Ctx) (mc : MCtx), InvR (fin := fin) recs ctx mc → factsList fin recs mc ctx.forInItem p a 0 xs = true →
@@ -38,7 +38,7 @@ theorem battrs_step_list {outer inner : Ctx} {omc imc : MCtx} (hio : InvR (fin :
   rw [factsAttrs.eq_2, Bool.and_eq_true] at h
   rw [resolveAttrs_cons_list]
   refine allBOK_append recs ?_ (ihRest h.2)
-  refine roleOut_bok hio hii p a (.list xs) _ _ _ _ _ _ _ (fun hr => hin.1 (roleOf_params_func hr)) (fun hr => hin.2 (roleOf_catchParam hr)) h.1 ?_ ?_ ?_
+  refine roleOut_bok hio hii p a (.list xs) _ _ _ _ _ _ _ (fun hr => hin.1.1 (roleOf_params_func hr)) (fun hr => hin.1.2 (roleOf_catchParam hr)) (fun hr => hin.2 (roleOf_selfName hr)) h.1 ?_ ?_ ?_
   · intro hc; exact ihList outer omc hio (by rw [hof]; exact hc)
   · intro hc; exact ihList inner imc hii (by rw [hif]; exact hc)
   · intro hc; exact ihList outer omc hio (by rw [hof]; exact hc)
@@ -47,7 +47,7 @@ omit hgood in
 theorem battrs_step_nonlist {outer inner : Ctx} {omc imc : MCtx} (hio : InvR (fin := fin) recs outer omc)
     (hii : InvR (fin := fin) recs inner imc) (hof : outer.forInItem = false) (hif : inner.forInItem = false)
     (p : SPath) (kind : String) (hasInit forIn : Bool)
-    (hin : InnerOK kind p inner)
+    (hin : InnerOK kind p inner ∧ (isFunctionKind kind = true → ∃ A, RecVar recs p (A :: omc.chain)))
     (a : String) (v : Val) (hnl : NotList v) (rest : List (String × Val))
     (h : factsAttrs fin recs omc imc p kind hasInit forIn ((a, v) :: rest) = true)
     (ihVal : ∀ (ctx : Ctx) (mc : MCtx), InvR (fin := fin) recs ctx mc →
@@ -58,7 +58,7 @@ theorem battrs_step_nonlist {outer inner : Ctx} {omc imc : MCtx} (hio : InvR (fi
   rw [factsAttrs.eq_3 _ _ _ _ _ _ _ _ _ _ _ hnl, Bool.and_eq_true] at h
   rw [resolveAttrs_cons_nonlist _ _ _ _ _ _ _ _ hnl]
   refine allBOK_append recs ?_ (ihRest h.2)
-  refine roleOut_bok hio hii p a v _ _ _ _ _ _ _ (fun hr => hin.1 (roleOf_params_func hr)) (fun hr => hin.2 (roleOf_catchParam hr)) h.1 ?_ ?_ ?_
+  refine roleOut_bok hio hii p a v _ _ _ _ _ _ _ (fun hr => hin.1.1 (roleOf_params_func hr)) (fun hr => hin.1.2 (roleOf_catchParam hr)) (fun hr => hin.2 (roleOf_selfName hr)) h.1 ?_ ?_ ?_
   · intro hc; exact ihVal { outer with forInItem := true } omc (invR_flag hio true) hc
   · intro hc; exact ihVal inner imc hii (by rw [hif]; exact hc)
   · intro hc; exact ihVal outer omc hio (by rw [hof]; exact hc)
@@ -89,15 +89,15 @@ mutual
           subst hb
           exact lookupEnv_bok hi.alr n
       · simp only [hid, Bool.false_eq_true, if_false, Bool.and_eq_true] at h ⊢
-        obtain ⟨hk2, h3⟩ := h
+        have h3 := h
         cases he : enterFacts fin recs mc p k as with
         | none => rw [he] at h3; cases h3
         | some inner =>
           rw [he] at h3
           simp only at h3
           have hi0 : InvR (fin := fin) recs { ctx with forInItem := false } mc := invR_flag hi false
-          obtain ⟨_, _, hvar⟩ := enter_of_facts recs hgood hi0.inv p k as hk2 inner he
-          have hinvR := enter_invR hgood hi0 p k as hk2 inner he
+          obtain ⟨_, _, hvar⟩ := enter_of_facts recs hgood hi0.inv p k as inner he
+          have hinvR := enter_invR hgood hi0 p k as inner he
           have hif : (enter { ctx with forInItem := false } p k as).forInItem = false := by
             rw [enter_unfold]
             split
@@ -107,8 +107,14 @@ mutual
               · split
                 · split <;> rfl
                 · rfl
+          have hrecv : isFunctionKind k = true → ∃ A, RecVar recs p (A :: mc.chain) := by
+            intro hfk
+            rcases enterFacts_spec he with ⟨_, R, A, hR, hRC, _⟩ | ⟨hf, _, _⟩ | ⟨hf, _, _⟩
+            · exact ⟨A, R, hR, hRC⟩
+            · rw [hfk] at hf; cases hf
+            · rw [hfk] at hf; cases hf
           exact bokAttrs { ctx with forInItem := false } (enter { ctx with forInItem := false } p k as)
-            mc inner p k _ ctx.forInItem hvar as hi0 hinvR rfl hif h3
+            mc inner p k _ ctx.forInItem ⟨hvar, hrecv⟩ as hi0 hinvR rfl hif h3
   theorem bokList : ∀ (ctx : Ctx) (mc : MCtx) (p : SPath) (a : String) (i : Nat) (xs : List Val),
       InvR (fin := fin) recs ctx mc → factsList fin recs mc ctx.forInItem p a i xs = true →
       AllBOK fin recs (resolveList ctx p a i xs)
@@ -118,7 +124,7 @@ mutual
       simp only [resolveList]
       exact allBOK_append recs (bokVal ctx mc _ v hi h.1) (bokList ctx mc p a (i + 1) rest hi h.2)
   theorem bokAttrs : ∀ (outer inner : Ctx) (omc imc : MCtx) (p : SPath) (kind : String)
-      (hasInit forIn : Bool) (_ : InnerOK kind p inner)
+      (hasInit forIn : Bool) (_ : InnerOK kind p inner ∧ (isFunctionKind kind = true → ∃ A, RecVar recs p (A :: omc.chain)))
       (as : List (String × Val)), InvR (fin := fin) recs outer omc → InvR (fin := fin) recs inner imc →
       outer.forInItem = false → inner.forInItem = false → factsAttrs fin recs omc imc p kind hasInit forIn as = true →
       AllBOK fin recs (resolveAttrs outer inner p kind hasInit forIn as)
@@ -154,7 +160,7 @@ end
 /-- the binders of a whole program are good -/
 theorem program_bok (fin : Final) (recs : List Rec) (hgood : ∀ R ∈ recs, ChainGood R.chain) (program : Val)
     (h : factsProgram fin recs program = true) :
-    ∀ b ∈ allBinders (Spec.Scope.resolveProgram program), BOK recs (tauFin fin) b := by
+    ∀ b ∈ allBinders (Spec.Scope.resolveProgram program), BOK recs (lblChain fin recs) (tauFin fin) b := by
   unfold factsProgram at h
   cases hrecs : recs with
   | nil => rw [hrecs] at h; cases h
@@ -175,12 +181,12 @@ theorem program_bok (fin : Final) (recs : List Rec) (hgood : ∀ R ∈ recs, Cha
         have hch : lookupChain fin.chains R.id = some (entriesOf [A]) := of_decide_eq_true hch0
         have hg : ChainGood [A] := hc ▸ hgood R (by rw [hrecs]; exact List.mem_cons_self ..)
         have hal : Al (tauFin fin) [{ kind := .global, scope := [], names := Spec.Scope.hoistVal program }] [A] := by
-          refine .root _ A hk (setEq_iff hset) ?_ hg
+          refine .root _ A hk (subsetOf_iff hset) ?_ hg
           intro n
           have e : tauN (tauFin fin) .global [] n = applyTable (rootTable fin) n := rfl
           rw [e, htab]
-        have hinvR : InvR (fin := fin) recs (Spec.Scope.globalCtx program) { sid := R.id, chain := [A] } := by
-          refine ⟨⟨hal, rfl, hch⟩, ?_⟩
+        have hinvR : InvR (fin := fin) recs (Spec.Scope.globalCtx program) { sid := R.id, chain := [A], env := [{ kind := .global, scope := [], names := Spec.Scope.hoistVal program }], labels := [] } := by
+          refine ⟨⟨hal, rfl, hch, rfl, rfl, fun x hx => absurd hx List.not_mem_nil⟩, ?_, fun x hx => absurd hx List.not_mem_nil⟩
           exact .root _ A hal ⟨R, rest, hrecs, hc⟩
         rw [← hrecs] at hfacts
         have hall := bokVal recs hgood (Spec.Scope.globalCtx program) _ [] program hinvR hfacts
